@@ -112,7 +112,13 @@ theorem purge_calls : callsOf "externalBaseQueue.Purge" = ["Purge", "notifyToPul
 theorem free_pool_node_calls : callsOf "worker.freePoolNode" =
     ["UpdateLastUsed", "Len", "NumConcurrency", "Len", "numMinIdleWorkers", "PushNode", "Stop", "Put"] := by decide
 theorem reaper_calls : callsOf "worker.goRemoveIdleWorkers$1" =
-    ["numMinIdleWorkers", "Len", "NodeSlice", "len", "Before", "Add", "GetLastUsed", "Now", "Remove", "Stop", "Put"] := by decide
+    ["numMinIdleWorkers", "Len", "NodeSlice", "len", "Before", "Add", "GetLastUsed", "Now", "RLock", "RUnlock", "Remove", "RUnlock", "Stop", "Put"] := by decide
+/-- the reaper checks that its run is still alive and removes the node under w.mx (read mode); stopTickers
+    closes the stop channel under w.mx (write mode): a pass that outlives its run removes nothing -/
+theorem reaper_skeleton : skeletonOf "worker.goRemoveIdleWorkers$1" =
+    ["chan:stop:recv", "chan:ticker.C:recv", "chan::select", "mutex:w.mx:RLock", "chan:stop:recv", "mutex:w.mx:RUnlock", "chan::select",
+     "mutex:w.mx:RUnlock", "pool:w.pool.Cache:Put"] ∧
+    skeletonOf "worker.stopTickers" = ["mutex:w.mx:Lock", "mutex:w.mx:Unlock", "time:ticker:Stop", "chan:stop:close"] := by decide
 theorem stop_all_calls : callsOf "worker.stopAndRemoveAllWorkers" = ["NodeSlice", "Remove", "Stop", "Put"] := by decide
 theorem tune_pool_calls : callsOf "worker.TunePool" =
     ["Load", "Load", "withSafeConcurrency", "Store", "notifyToPullNextJobs", "numMinIdleWorkers", "PopBackIfLonger", "Stop", "Put"] := by decide
